@@ -136,7 +136,9 @@ func (f *Fosite) DefaultClientAuthenticationStrategy(ctx context.Context, r *htt
 			// Do not re-process already enhanced errors
 			var e *jwt.ValidationError
 			if errors.As(err, &e) {
-				if e.Inner != nil {
+				// The key function reports its own OAuth 2.0 errors through Inner; anything else (for example the plain
+				// "Token is expired" raised while the claims are validated) is a failed client authentication, not a server error.
+				if rfcErr := new(RFC6749Error); e.Inner != nil && errors.As(e.Inner, &rfcErr) {
 					return nil, e.Inner
 				}
 				return nil, errorsx.WithStack(ErrInvalidClient.WithHint("Unable to verify the integrity of the 'client_assertion' value.").WithWrap(err).WithDebug(err.Error()))
